@@ -568,4 +568,4 @@ class StyleAttribute:
 
     raw_value = xml_element.attrib.get(StyleAttribute.qn)
 
-    return raw_value.split(" ") if raw_value is not None else []
+    return raw_value.split() if raw_value is not None else []
